@@ -82,6 +82,13 @@ void ezc3d::c3d::write(const std::string& filePath) const
     // Write the parameters
     this->parameters().write(f);
 
+    // The data start right after the parameters, so the data start word of the header (word 9) is now known
+    std::streampos dataPosition(f.tellg());
+    int dataStartBlock(static_cast<int>(dataPosition)/512 + 1); // Blocks are 1-based
+    f.seekg(8*ezc3d::DATA_TYPE::WORD);
+    f.write(reinterpret_cast<const char*>(&dataStartBlock), 1*ezc3d::DATA_TYPE::WORD);
+    f.seekg(dataPosition);
+
     // Write the data
     this->data().write(f);
 
